@@ -67,6 +67,30 @@ const (
 
 var prefixes = []string{prefNone, prefSlash, prefRoot, prefParent}
 
+// States of the component's root at the time of the call, other than the
+// populated directory. For fstree and the registry the backend is opened on
+// an existing directory first and the root is brought into the state
+// afterwards (a database directory that vanishes under a running backend).
+//
+//	removed: the root directory does not exist (any more)
+//	file:    a regular file is where the root directory should be
+//	empty:   the root is an empty directory
+//
+// For unpacking the root (the per-archive unpack directory) normally does not
+// exist before the call; "file" and "empty" put a file / an empty directory there.
+const (
+	stRemoved = "removed"
+	stFile    = "file"
+	stEmpty   = "empty"
+)
+
+var rootStates = map[string][]string{
+	"fstree":    {stRemoved, stFile, stEmpty},
+	"dirstruct": {stRemoved, stFile, stEmpty},
+	"scan":      {stRemoved, stFile, stEmpty},
+	"unpack":    {stFile, stEmpty},
+}
+
 // caseSpec identifies one case completely; it is also the replay witness.
 type caseSpec struct {
 	Comp   string   `json:"component"`
@@ -75,6 +99,7 @@ type caseSpec struct {
 	Prefix string   `json:"prefix"`     // "", "/", "{ROOT}/" (absolute path of the root), "{PARENT}/" (absolute path of its parent)
 	Rel    string   `json:"rel"`        // the segments joined by "/"
 	Cwd    string   `json:"cwd,omitempty"`
+	State  string   `json:"root_state,omitempty"` // state of the root when the call is made: "" = populated directory, see rootStates
 	Name   string   `json:"name_in_this_run,omitempty"`
 	Audit  bool     `json:"audit,omitempty"` // witness of the strace read audit (oracle ii)
 }
@@ -191,6 +216,9 @@ type worker struct {
 
 func (w *worker) sandbox(cs caseSpec) *sbox {
 	key := cs.Comp + "-" + strings.Join(cs.Chain, "_")
+	if cs.State != "" {
+		key += "-" + cs.State
+	}
 	sb := w.boxes[key]
 	if sb != nil && !sb.outsideDirty {
 		if sb.insideDirty {
@@ -224,6 +252,15 @@ func (sb *sbox) buildInside(cs caseSpec) {
 		must(os.RemoveAll(e))
 	}
 	sb.insideDirty = false
+	if cs.State != "" && cs.Comp != "unpack" {
+		if cs.Comp == "scan" {
+			must(os.MkdirAll(sb.root, 0o755))
+			reg := &updater.ResourceRegistry{Name: "c18"}
+			must(reg.Initialize(utils.NewDirStructure(sb.root, 0o755)))
+		}
+		sb.establish(cs)
+		return
+	}
 	switch cs.Comp {
 	case "fstree", "dirstruct":
 		sb.populateInside(sb.root, rn)
@@ -242,6 +279,25 @@ func (sb *sbox) buildInside(cs caseSpec) {
 		sb.file(filepath.Join(sb.root, "a", "in_v1-0-0.bin"), "inside:")
 	case "unpack":
 		// neither the unpack dir nor the destination exist before unpacking
+	}
+}
+
+// establish brings the root into the state of the case (see rootStates).
+func (sb *sbox) establish(cs caseSpec) {
+	must(os.RemoveAll(sb.root))
+	switch cs.State {
+	case stRemoved:
+	case stFile:
+		sb.file(sb.root, "inside:")
+	case stEmpty:
+		perm := os.FileMode(0o755)
+		if cs.Comp == "dirstruct" {
+			perm = dsRootPerm
+		}
+		must(os.Mkdir(sb.root, perm))
+		must(os.Chmod(sb.root, perm))
+	default:
+		panic("unknown root state " + cs.State)
 	}
 }
 
@@ -435,8 +491,16 @@ func runCase(cs caseSpec, w *worker) (res caseResult) {
 	res.allowSub = append([]string{os.TempDir()}, sb.excl...)
 	switch cs.Comp {
 	case "fstree":
+		if cs.State == stRemoved || cs.State == stFile {
+			// the backend is opened while the directory exists; then the state is restored
+			must(os.RemoveAll(sb.root))
+			must(os.Mkdir(sb.root, 0o755))
+		}
 		st, err := fstree.NewFSTree("db", sb.root)
 		must(err)
+		if cs.State == stRemoved || cs.State == stFile {
+			sb.establish(cs)
+		}
 		res.target = filepath.Join(sb.root, name)
 		op = func() error {
 			switch cs.Op {
@@ -510,6 +574,9 @@ func runCase(cs caseSpec, w *worker) (res caseResult) {
 		reg := &updater.ResourceRegistry{Name: "c18"}
 		must(reg.Initialize(utils.NewDirStructure(storage, 0o755)))
 		sb.populateLevel(filepath.Dir(sb.root), unpackRoot, unpackRoot, false)
+		if cs.State != "" {
+			sb.establish(cs)
+		}
 		must(os.WriteFile(filepath.Join(storage, "pk", unpackRoot+".zip"), mkZip(name), 0o644))
 		must(reg.AddResource(unpackID, unpackVer, nil, true, false, false))
 		reg.SelectVersions()
@@ -522,6 +589,9 @@ func runCase(cs caseSpec, w *worker) (res caseResult) {
 	case "scan":
 		reg := &updater.ResourceRegistry{Name: "c18"}
 		must(reg.Initialize(utils.NewDirStructure(sb.root, 0o755))) // wipes and re-creates <root>/tmp: same tree
+		if cs.State != "" {
+			sb.establish(cs)
+		}
 		cwd := filepath.Dir(sb.root)
 		if cs.Cwd == "root" {
 			cwd = sb.root
@@ -656,6 +726,9 @@ func evaluate(c *vlib.Ctx, cs caseSpec, res caseResult, verbose bool) {
 	if cs.Cwd != "" {
 		desc += " cwd=" + cs.Cwd
 	}
+	if cs.State != "" {
+		desc += " root-state=" + cs.State
+	}
 	if verbose {
 		fmt.Printf("case: %s\n  lexical target: %q escaping=%v\n  error: %q (is error: %v)\n  outside changes: %v\n  outside data returned: %v\n  %s\n",
 			desc, res.target, res.escaping, res.err, res.isErr, res.changes, res.outData, res.extra)
@@ -686,9 +759,12 @@ func evaluate(c *vlib.Ctx, cs caseSpec, res caseResult, verbose bool) {
 			fmt.Sprintf("%s handed back content from outside the root: %s (error: %q)", desc, strings.Join(res.outData, "; "), res.err), cs)
 	}
 	out := cs.Comp + "." + cs.Op
+	if cs.State != "" {
+		out += "[root " + cs.State + "]"
+	}
 	if res.escaping {
 		out += "/escaping"
-		c.Nontrivial(fmt.Sprintf("%s|%s|%v|%s|%s%s", cs.Comp, cs.Op, cs.Chain, cs.Cwd, cs.Prefix, cs.Rel))
+		c.Nontrivial(fmt.Sprintf("%s|%s|%v|%s|%s|%s%s", cs.Comp, cs.Op, cs.Chain, cs.Cwd, cs.State, cs.Prefix, cs.Rel))
 	} else {
 		out += "/inside"
 	}
@@ -774,6 +850,7 @@ func main() {
 		unp := vlib.Pick(c,
 			[][]string{{"st", "tmp", unpackRoot}, {"a", unpackRoot, "st", "tmp", unpackRoot}},
 			[][]string{{"st", "tmp", unpackRoot}, {unpackRoot + "-other", "st", "tmp", unpackRoot}, {"a", unpackRoot, "st", "tmp", unpackRoot}})
+		stateSeg := map[string]int{"fstree": vlib.Pick(c, 3, 4), "dirstruct": vlib.Pick(c, 2, 4), "scan": vlib.Pick(c, 2, 4), "unpack": vlib.Pick(c, 2, 4)}
 		sets := []rootSet{
 			{"fstree", []string{"Put", "Get", "Delete", "Query"}, plain, []string{""}},
 			{"dirstruct", []string{"EnsureAbsPath", "EnsureRelPath", "EnsureRelDir"}, plain, []string{""}},
@@ -783,6 +860,7 @@ func main() {
 		}
 		c.Rule(fmt.Sprintf("every name = prefix + s1/.../sk, 1<=k<=%d, si in {a, .., ., \"\", <rootname>-other, <rootname>}, prefix in {\"\", \"/\", <abs root>/, <abs parent of root>/}; "+
 			"for every component operation and every root chain; each case on a fresh sandbox tree with sentinel files/dirs named a, <rootname>, <rootname>-other at every level above the root. "+
+			"additionally (shorter names) with the root removed / replaced by a regular file after the backend was opened / an empty directory. "+
 			"distinct_nontrivial = cases whose name lexically resolves outside the root", maxSeg))
 		c.Assume("no symbolic links inside the sandbox: containment is decided lexically (Join/Clean), as the property's quantifier is over name strings")
 		c.Assume("reads outside the root are observed only through what the operation hands back (record content, query results, scanned resources) unless the optional strace audit ran; a read whose result is discarded is not seen by the engine-Q part")
@@ -807,6 +885,20 @@ func main() {
 							}
 							for _, op := range rs.ops {
 								specs = append(specs, caseSpec{Comp: rs.comp, Op: op, Chain: chain, Prefix: pf, Rel: r, Cwd: cwd})
+							}
+						}
+					}
+				}
+			}
+			// the root-state dimension: the same names (up to a smaller length) against a
+			// root that is missing, a regular file, or an empty directory
+			for _, state := range rootStates[rs.comp] {
+				for _, chain := range rs.chains {
+					c.Scenario(fmt.Sprintf("%s root={SANDBOX}/%s root-state=%s", rs.comp, strings.Join(chain, "/"), state))
+					for _, r := range rels(chain[len(chain)-1], stateSeg[rs.comp]) {
+						for _, pf := range prefixes {
+							for _, op := range rs.ops {
+								specs = append(specs, caseSpec{Comp: rs.comp, Op: op, Chain: chain, Prefix: pf, Rel: r, Cwd: rs.cwds[0], State: state})
 							}
 						}
 					}
@@ -879,7 +971,7 @@ func main() {
 			if !r.done {
 				continue
 			}
-			k := fmt.Sprintf("%s|%v|%s|%s|%s", s.Comp, s.Chain, s.Cwd, s.Prefix, s.Rel)
+			k := fmt.Sprintf("%s|%v|%s|%s|%s|%s", s.Comp, s.Chain, s.Cwd, s.State, s.Prefix, s.Rel)
 			st := int64(0)
 			if _, ok := seenInput[k]; !ok {
 				seenInput[k] = struct{}{}
